@@ -229,10 +229,11 @@ PROPS = {
     },
     "C15": {
         "lean_modules": ["Cachelito.Props.C15", "Cachelito.Props.C15b"],
-        "streams": [core_stream(nontrivial=["hit", "expiry"]), macro_stream(nontrivial=["stats-get", "stats-reset", "hit"])],
+        "streams": [core_stream(nontrivial=["hit", "expiry"]), macro_stream(nontrivial=["stats-get", "stats-reset", "hit"]),
+                    sched_stream(nontrivial=["quiescent-stats-checked"], quick=(6, 4, 60))],
         "monitors": ["C15"],
         "rule": "L1: counters in every state dump; L2: stats_registry::get(name) after every call, get/reset by name incl. unknown names; non-trivial = hit, expiry-as-miss, stats query or reset",
-        "level_text": "Lean theorems (sequential): every lookup bumps exactly one counter, hits iff it returned a value (an expired entry is a miss), nothing else touches the counters, hits+misses = number of lookups for every history. Tied to the code by the counters in every L1 state dump and by the registry's per-name statistics after every L2 call. The concurrent part (atomic counters under any schedule) is not yet claimed here.",
+        "level_text": "Lean theorems (sequential): every lookup bumps exactly one counter, hits iff it returned a value (an expired entry is a miss), nothing else touches the counters, hits+misses = number of lookups for every history. Tied to the code by the counters in every L1 state dump and by the registry's per-name statistics after every L2 call. Concurrent part: in scheduled runs of real threads (incl. lookups of expired entries racing with each other and with stores) hits+misses at quiescence must equal the number of completed calls and hits the number of calls served from the cache; there is no separate theorem for the atomic counters (fetch_add atomicity is assumed).",
         "level_note": MODEL_NOTE + " AtomicU64::fetch_add is assumed atomic.",
         "technique": TECH, "design_ref": "DESIGN.md §7 C15",
         "assumptions": ["distinct cache names"],
